@@ -344,7 +344,7 @@ class EmitV3(V3Unit):
                 final = message(digest)
             else:
                 final = message(b"")
-            chk(("C05", "C10", "C12", "C14"), ENC, "ensures",
+            chk(("C05", "C10", "C12", "C14") + (("C11",) if use_priv_x and which else ()), ENC, "ensures",
                 "request-is-the-RFC-3412/3414-message(flags,discovered-engine-boots-time,user,context,digest-over-the-message-as-sent)" + which,
                 interp.eq(data, final))
             return final, scoped, kpriv
@@ -451,6 +451,7 @@ def units_emit(tier):
     us.append(EmitV3("authNoPriv-md5", "multiset", 2, True))
     us.append(EmitV3("noAuthNoPriv", "multiget", 1, True))
     us.append(EmitV3("authNoPriv-md5", "multiget", 1, False, second_user="authNoPriv-md5"))
+    us.append(EmitV3("authPriv-md5", "multiset", 1, False, second_user="authPriv-md5"))
     us.append(EmitV3("authNoPriv-md5", "multiset", 1, False, second_user="authPriv-sha1"))
     us.append(EmitV3("authPriv-sha1", "multiget", 1, True, second_user="noAuthNoPriv"))
     us.append(EmitV3("authNoPriv-md5", "multiget", 1, False, reply="no-bindings"))
@@ -765,6 +766,14 @@ class ReceiveV3(V3Unit):
                 chk(("C09",), USM, "raises", "an-agent-error-status-surfaces-only-from-an-authenticated-message",
                     And(auth_bit, valid, interp.eq(user, own_user)))
             return "raises:ErrorResponse"
+        faulty_cls = get_cls(rt, interp, "puresnmp.exc:FaultySNMPImplementation")
+        if hashname and exc_is(exc, faulty_cls):
+            # the walk loop takes FaultySNMPImplementation (like noSuchName) for the agent's verdict and, in lenient mode, ends
+            # normally: raised on behalf of an unauthenticated message it would let a forged datagram truncate a walk silently
+            mi = mac_input()
+            valid = interp.eq(authp, SBytes(rt.f_prefix(rt.f_hmac(hname, kul, w.z(mi)), z3.IntVal(12))))
+            chk(("C09",), USM, "raises", "an-exception-the-walk-loop-swallows-comes-only-from-an-authenticated-message",
+                And(auth_bit, valid, interp.eq(user, own_user)))
         # any other exception refuses the message; a status must not be swallowed into another error once the
         # message got through authentication and decryption
         # (the plug-in model decrypts to a well-formed scoped PDU, so a DecryptionError here is not a decryption problem)
